@@ -131,6 +131,10 @@ func ruleGuardedBy(c *Ctx, rule string) {
 			c.ok(rule, key, "-", "published by close of "+sig+" (reads checked by C15.3)")
 			continue
 		}
+		if how, ok := publishedByOnce(nonConstr); ok {
+			c.ok(rule, key, "-", how)
+			continue
+		}
 		// candidate lock: the lock held at the most accesses
 		count := map[string]int{}
 		for _, a := range nonConstr {
@@ -1438,4 +1442,69 @@ func isAppendOfParamCtx(v ssa.Value, fn *ssa.Function) bool {
 	}
 	p, ok := origin(call.Call.Args[0]).(*ssa.Parameter)
 	return ok && p.Parent() == fn
+}
+
+// publishedByOnce: every write of the field is inside a function literal passed directly to Do of ONE sync.Once field,
+// and every read is inside such a literal or dominated by a Do call on that same Once (sync.Once gives the
+// happens-before edge from the end of the first Do's function to the return of every Do).
+func publishedByOnce(accs []*FieldAccess) (string, bool) {
+	onceOf := func(fn *ssa.Function) (FieldRef, bool) {
+		// fn is the literal of exactly one MakeClosure that is the argument of a Once.Do call
+		p := fn.Parent()
+		if p == nil {
+			return FieldRef{}, false
+		}
+		var fr FieldRef
+		found := 0
+		allInstrs(p, func(in ssa.Instruction) {
+			call, ok := in.(*ssa.Call)
+			if !ok || calleeName(call) != "(*sync.Once).Do" || len(call.Call.Args) != 2 {
+				return
+			}
+			if mc, isM := call.Call.Args[1].(*ssa.MakeClosure); isM && mc.Fn == ssa.Value(fn) {
+				if f, _, okF := fieldOfAddr(call.Call.Args[0]); okF {
+					fr = f
+					found++
+				}
+			}
+		})
+		return fr, found == 1
+	}
+	var once FieldRef
+	have := false
+	for _, a := range accs {
+		if !a.Write {
+			continue
+		}
+		fr, ok := onceOf(a.Fn)
+		if !ok || (have && fr != once) {
+			return "", false
+		}
+		once, have = fr, true
+	}
+	if !have {
+		return "", false
+	}
+	for _, a := range accs {
+		if a.Write {
+			continue
+		}
+		if fr, ok := onceOf(a.Fn); ok && fr == once {
+			continue
+		}
+		dominated := false
+		allInstrs(a.Fn, func(in ssa.Instruction) {
+			call, ok := in.(*ssa.Call)
+			if !ok || calleeName(call) != "(*sync.Once).Do" || len(call.Call.Args) != 2 {
+				return
+			}
+			if f, _, okF := fieldOfAddr(call.Call.Args[0]); okF && f == once && dominates(call, a.Instr) {
+				dominated = true
+			}
+		})
+		if !dominated {
+			return "", false
+		}
+	}
+	return "written only inside " + once.String() + ".Do and read only after a Do call on it (sync.Once happens-before)", true
 }
